@@ -2,6 +2,7 @@ package liveness
 
 import (
 	"errors"
+	"sync"
 	"time"
 
 	"github.com/refraction-networking/conjure/internal/verifnd"
@@ -122,4 +123,67 @@ func VerifC18Histories() {
 		}
 	}
 	verifnd.Reach("C18.done")
+}
+
+// VerifC18Concurrent: concurrent use of the bounded (LRU) verdict cache, capacity 1 or 2: two
+// goroutines caching verdicts for different addresses (what two concurrent queries of uncached
+// addresses do after their probes), optionally a third one looking the first address up (served
+// and refreshed, or not, depending on the schedule), under every interleaving at the cache's own
+// lock and at the LRU list's lock (incl. the eviction callback).  When everybody has returned
+// the cache holds no more than its capacity, and everything it still serves is an entry the LRU
+// list accounts for (an evicted entry is never served).
+// Bound: the tester's statistics counters and the probe itself are not part of the interleaving.
+// verif:replay=native-then-model
+// verif:shards=4
+func VerifC18Concurrent() {
+	k := verifnd.Choose("case", 4) // sharded: capacity 1/2 x third goroutine
+	capacity, third := 1+k%2, k/2 == 1
+	rounds := 1
+	if !verifnd.Symbolic() {
+		rounds = 5000 // native replay cannot force the schedule
+	}
+	for r := 0; r < rounds; r++ {
+		lc := newLRUCache(time.Hour, capacity)
+		if lc == nil {
+			return
+		}
+		addrs := []string{"192.0.2.1", "192.0.2.2"}
+		n := 2
+		if third {
+			n = 3
+		}
+		var wg sync.WaitGroup
+		for i := 0; i < n; i++ {
+			wg.Add(1)
+			go func(i int) {
+				defer wg.Done()
+				if i < 2 {
+					lc.Add(addrs[i], &cacheElement{cachedTime: time.Now()})
+				} else {
+					lc.Lookup(addrs[0])
+				}
+			}(i)
+		}
+		if verifnd.Symbolic() {
+			verifnd.Quiesce() // the main goroutine takes no part in the interleaving
+		} else {
+			wg.Wait()
+		}
+		bounded := lc.Len() <= capacity
+		accounted := true
+		lc.m.RLock()
+		for key := range lc.ipCache {
+			if !lc.lru.Contains(key) {
+				accounted = false
+			}
+		}
+		lc.m.RUnlock()
+		if rounds > 1 && r < rounds-1 && bounded && accounted {
+			continue
+		}
+		verifnd.Assert(bounded, "C18.concurrent.cache-bounded-once-quiescent")
+		verifnd.Assert(accounted, "C18.concurrent.every-served-entry-is-accounted-for-by-the-lru-list")
+		break
+	}
+	verifnd.Reach("C18.concurrent.done")
 }
